@@ -69,3 +69,47 @@ def check_delta_arrays(ctx, modules, prefix):
                key=f"{prefix}|delta-array|{key[0]}|{key[1]}")
     ctx.count("functions scanned for the delta-array idiom", scanned)
     return len(sites)
+
+
+def uniformity_shortcut_sites(ix, modules):
+    """`if np.all(W == W[0]): ... Z[0] ...`: a shortcut for "all records alike" that checks one per-record array (W) but then uses the first element of
+    ANOTHER per-record array (Z) for every record.  Uniform W does not make Z uniform unless Z is a function of W (two read lengths 9 and 10 pack into the
+    same number of bytes)."""
+    out, scanned = [], 0
+    for mod in modules:
+        if mod not in ix.modules:
+            continue
+        for fi in ix.module(mod).functions.values():
+            if isinstance(fi.node, ast.Lambda):
+                continue
+            scanned += 1
+            for t in [x for x in ast.walk(fi.node) if isinstance(x, ast.If)]:
+                ws = set()
+                for c in ast.walk(t.test):
+                    if isinstance(c, ast.Call) and u(c.func) in ("np.all", "all") and c.args and isinstance(c.args[0], ast.Compare) and isinstance(c.args[0].ops[0], ast.Eq):
+                        l, r = c.args[0].left, c.args[0].comparators[0]
+                        for a, b in ((l, r), (r, l)):
+                            if isinstance(a, ast.Name) and isinstance(b, ast.Subscript) and u(b.value) == a.id and u(b.slice) == "0":
+                                ws.add(a.id)
+                if not ws:
+                    continue
+                for st in t.body:
+                    for z in ast.walk(st):
+                        if isinstance(z, ast.Subscript) and isinstance(z.value, ast.Name) and u(z.slice) == "0" and z.value.id not in ws and isinstance(z.ctx, ast.Load):
+                            out.append((fi, sorted(ws), z.value.id, t))
+    return out, scanned
+
+
+def check_uniformity_shortcuts(ctx, modules, prefix):
+    from .astutil import local_env
+    sites, scanned = uniformity_shortcut_sites(ctx.index, modules)
+    for fi, ws, z, t in sites:
+        env = local_env(fi.node)
+        # Z determined by W alone (Z = f(W)) is fine; W = f(Z) is not (f need not be injective)
+        zdef = env.get(z)
+        z_from_w = zdef is not None and {n.id for n in ast.walk(zdef) if isinstance(n, ast.Name)} & set(ws) and not any(
+            isinstance(n, ast.Name) and n.id not in ws and n.id in env for n in ast.walk(zdef))
+        ctx.ob(fi.where, f"the all-records-alike shortcut tests `{', '.join(ws)}` and then uses `{z}[0]` for every record: `{z}` must be determined by the tested array "
+               f"(equal `{ws[0]}` does not imply equal `{z}`)", bool(z_from_w), u(t.test)[:100], key=f"{prefix}|uniformity-shortcut|{fi.module.name}|{fi.qualname}|{z}")
+    ctx.count("functions scanned for all-alike shortcuts", scanned)
+    return len(sites)
